@@ -15,7 +15,7 @@ import (
 func init() {
 	p := Registry["C19"]
 	p.Roles["realstore"] = Role{N: func(t string) int { return tierN(t, 4, 32) }, Case: c19RealStore}
-	p.Rule += " Role realstore: the file repository and the content-file repository of a real database (their Badger manager, not a recording provider): records are written, rewritten under the same content id with another sequence and transaction id (what a commit does), deleted and written again, singly and several per metadata-store transaction, content-file records under the neighbouring prefix in between; GetAll, outside and inside a metadata-store transaction, must return exactly the latest record of every content id that was not deleted - no earlier version of a rewritten record, no deleted one, none missing."
+	p.Rule += " Role realstore: the file repository and the content-file repository of a real database (their Badger manager, not a recording provider): records are written, rewritten under the same content id with another sequence and transaction id (what a commit does), deleted and written again, singly and several per metadata-store transaction, content-file records under the neighbouring prefix in between; GetAll, outside and inside a metadata-store transaction, (in every fourth case on top of 999-3100 records written before), must return exactly the latest record of every content id that was not deleted - no earlier version of a rewritten record, no deleted one, none missing."
 }
 
 func c19RealStore(tier string, seed int64, idx int, scratch string) rt.CaseResult {
@@ -83,6 +83,34 @@ func c19RealStore(tier string, seed int64, idx int, scratch string) rt.CaseResul
 			}
 		}
 		return true
+	}
+	if idx%4 == 3 {
+		// more records than any page or batch a scan may be cut into (1000, 1024, 2048)
+		cont := verif.InlineContainer(env.DB)
+		total := []int{999, 1000, 1001, 2047, 2049, 3100}[idx/4%6]
+		for i := 0; i < total; i += 100 {
+			rt.Beat()
+			err := cont.Badger().RunTransaction(ctx, func(ctx context.Context) error {
+				for j := i; j < min(i+100, total); j++ {
+					f := verif.File{Key: fmt.Sprintf("bulk-%d", j), Seq: verif.Seq(rng.Uint64()), TxId: randUUID(rng), ContentId: randUUID(rng)}
+					want[f.ContentId] = f
+					ids = append(ids, f.ContentId)
+					if e := cont.FileRepo().Set(ctx, f); e != nil {
+						return e
+					}
+				}
+				return nil
+			})
+			if err != nil {
+				c.Violate("real-store-write-failed", err.Error(), plan)
+				return c
+			}
+		}
+		plan["bulk_records"] = total
+		if !check(fmt.Sprintf("after %d records written in batches", total)) {
+			return c
+		}
+		c.AddDistinct(fmt.Sprintf("real/bulk=%d", total))
 	}
 	for round := 0; round < 3; round++ {
 		cont := verif.InlineContainer(env.DB)
